@@ -372,6 +372,9 @@ func (ex *Exec) evalInstr(fr *Frame, st *State, ins ssa.Instruction, v ssa.Value
 		}
 		n := len(leavesOf(tt.At(x.Index).Type()))
 		r := Value{T: x.Type(), L: tup.L[off : off+n]}
+		if tup.Tab && x.Index == 0 {
+			r.Tab = true
+		}
 		if n == 1 {
 			if c, ok := st.Closures[r.L[0].String()]; ok {
 				r.Clo = c
@@ -430,6 +433,15 @@ func (ex *Exec) evalInstr(fr *Frame, st *State, ins ssa.Instruction, v ssa.Value
 		base := ex.val(fr, st, x.X)
 		key := ex.val(fr, st, x.Index)
 		if _, isMap := x.X.Type().Underlying().(*types.Map); isMap {
+			if es := ex.tableOf(x.X); es != nil {
+				// lookup in a dispatch table of the package: a case distinction over its keys
+				fv, ok := ex.tableLookup(es, key.L[0])
+				elemT := x.X.Type().Underlying().(*types.Map).Elem()
+				if x.CommaOk {
+					return Value{T: x.Type(), L: []*Term{fv, ok}, Tab: true}
+				}
+				return Value{T: elemT, L: []*Term{fv}, Tab: true}
+			}
 			v := ex.mapLoad(st, base, key.L[0])
 			if x.CommaOk {
 				ok := ex.mapHas(st, base, key.L[0])
